@@ -33,9 +33,13 @@ type Cmd struct {
 	Dir  string
 	Env  []string // appended to a minimal environment
 
-	Stdin     []byte // delivered through a pipe (nil + StdinFile "" = /dev/null)
-	StdinFile string // open this file as stdin instead
-	StdinTTY  bool   // stdin is the terminal
+	Stdin []byte // delivered through a pipe (nil + StdinFile "" = /dev/null)
+	// StdinPieces: deliver stdin through a pipe in these pieces, pausing
+	// StdinPause between them (a producer that trickles its output).
+	StdinPieces [][]byte
+	StdinPause  time.Duration
+	StdinFile   string // open this file as stdin instead
+	StdinTTY    bool   // stdin is the terminal
 
 	// Stdout: "" capture through a pipe; "file:PATH" (O_CREAT|O_TRUNC);
 	// "append:PATH"; "devfull"; "closed"; "tty"; "earlyclose:N" a pipe whose
@@ -162,6 +166,25 @@ func Run(c *Cmd) *Result {
 		}
 		closers = append(closers, f)
 		cmd.Stdin = f
+	case c.StdinPieces != nil:
+		pr, pw, err := os.Pipe()
+		if err != nil {
+			res.Err = err
+			return res
+		}
+		cmd.Stdin = pr
+		closers = append(closers, pr)
+		go func() {
+			defer pw.Close()
+			for i, p := range c.StdinPieces {
+				if i > 0 && c.StdinPause > 0 {
+					time.Sleep(c.StdinPause)
+				}
+				if _, err := pw.Write(p); err != nil {
+					return
+				}
+			}
+		}()
 	case c.Stdin != nil:
 		cmd.Stdin = bytes.NewReader(c.Stdin)
 	default:
